@@ -1,15 +1,15 @@
 SPECIFICATION Spec
 CONSTANTS
-  NF = 2
-  MaxLen = 12
-  Kinds = {"mod", "add", "addempty", "del", "rename", "renmod", "copy", "modeonly", "modemod", "bin", "binadd"}
+  NF = 1
+  MaxLen = 14
+  Kinds = {"cc", "modeonly"}
   MaxHunks = 2
-  MaxBody = 3
-  Preamble = TRUE
+  MaxBody = 2
+  Preamble = FALSE
   MaxConf = 1
   Buf = 1
   Fixes = {"D1", "D14", "D2"}
-  ReplayLen = 9
+  ReplayLen = 0
 INVARIANTS RowsOnceInOrder Lag PrefixStable Boundary Replay
 PROPERTY NeverRevised
 CHECK_DEADLOCK FALSE
